@@ -49,7 +49,7 @@ use std::{
 #[cfg(not(gdsl_verif))]
 use std::sync::{Mutex, MutexGuard, RwLock};
 #[cfg(gdsl_verif)]
-use crate::verif::RwLock;
+use crate::verif::{Mutex, MutexGuard, RwLock};
 
 enum Transposition {
     Outbound,
